@@ -8,8 +8,11 @@
 //! larger than the capacity are refused with an error (a panic is a violation), patterns of all live blocks are
 //! intact (head/tail after every op, full at free and at the end), a free of a live block is accepted, a pointer the
 //! pool never issued is refused by the pools that validate pointers and the pool stays usable.
-//! M+S cells: LockFreeMemoryPool, BumpAllocator/BumpArena (histories evaluated against coq/C07/Model.v).
-//! S-only cells: everything else (see `cells`).
+//! M+S cells: LockFreeMemoryPool, BumpAllocator/BumpArena (histories evaluated against coq/C07/Model.v), and the cells of the
+//! extension (five-level, thread-local, tiered, secure, basic, mmap); S-only cells: everything else (see `cells`).
+//! Breadth: the histories also contain housekeeping / accessor entry points (op 5), bulk requests (op 6) and requests sized
+//! around the reported remaining capacity (op 7); `c07_wide.rs` holds the deterministic threshold families, the
+//! CacheAlignedVec cell and the global secure pools (design/C07.md, "Oracle breadth").
 //!
 //! The whole run happens in a child process (a pool defect can unmap or corrupt memory the oracle then touches):
 //! the child notes the case it is working on; if it dies, the parent reports that case as the failing input.
@@ -673,6 +676,7 @@ struct SecPut { h: HashMap<u64, SecurePooledPtr>, pool: Option<Arc<SecureMemoryP
                 unmodelled: bool, complaint: Option<String> }
 fn sec_config(c: &Value) -> SecurePoolConfig {
     let mut cfg = match u(c, "preset") { 1 => SecurePoolConfig::small_secure(), 2 => SecurePoolConfig::medium_secure(), 3 => SecurePoolConfig::large_secure(),
+        4 => SecurePoolConfig::default(),   // chunk size 0, alignment 0: the constructor must refuse it
         _ => SecurePoolConfig::new(u(c, "chunk") as usize, u(c, "maxchunks") as usize, u(c, "align") as usize).with_local_cache_size(u(c, "lcache") as usize).with_zero_on_alloc(u(c, "flags") & 1 != 0) };
     // the builder methods on top of the preset / constructor ("opts" bit mask; absent = 0 = the configuration as before)
     let o = u(c, "opts");
@@ -1413,7 +1417,7 @@ fn run_case(cx: &mut Ctx, c: &Value, force: bool) {
             let cell = "HugePageAllocator";
             cx.sum.eval(cell, &key, nontrivial); cx.sum.cell_status(cell, "S-only");
             // minsize = 0: HugePageAllocator::new(); otherwise with_config(minsize, page size by the "page" field)
-            let a = if u(c, "minsize") == 0 { HugePageAllocator::new() } else {
+            let a = if u(c, "minsize") == 0 { if u(c, "page") == 1 { Ok(HugePageAllocator::default()) } else { HugePageAllocator::new() } } else {
                 let page = match u(c, "page") { 0 => 2usize << 20, 1 => 1 << 30, p => p as usize };
                 let r = HugePageAllocator::with_config(u(c, "minsize") as usize, page);
                 if r.is_ok() != (page == 2 << 20 || page == 1 << 30) { cx.sum.fail(cell, None, c.clone(), &format!("HugePageAllocator::with_config(_, {}) {}", page, if r.is_ok() { "accepted" } else { "refused" })); return; }
@@ -1544,7 +1548,7 @@ fn gen_case(r: &mut Rng, which: u64, bins: &[u64]) -> Value {
             let cl: Vec<u64> = (1..=8).map(|k| k * align).chain([fast.saturating_sub(align).max(1), fast, fast + align, 2 * fast]).collect();
             let n = r.range(3, 60);
             json!({"cell": "five", "level": level, "sublevel": r.below(6), "preset": preset, "align": align, "cap": cap, "fast": fast, "arena": arena, "fixed": fixed,
-                   "flags": if wide { r.below(1 << 10) } else { 0 }, "handle": if wide { 1 } else { 0 },
+                   "flags": if wide { r.below(1 << 10) } else { 0 }, "handle": 1,
                    "ops": gen_ops_x(r, n, &cl, pcap, true, false, &[1], xx(1, false, true))})
         }
         4 => { // thread-local pool
@@ -1569,7 +1573,7 @@ fn gen_case(r: &mut Rng, which: u64, bins: &[u64]) -> Value {
                 ops.push(o);
                 if was_free && r.chance(1, 4) { ops.push(vec![2, 0, 8]); }
             }
-            json!({"cell": "secure", "preset": preset, "chunk": *r.pick(&[1u64, 8, 24, 100, 1024, 4096]), "maxchunks": *r.pick(&[1u64, 4, 100]), "align": *r.pick(&[1u64, 8, 16, 32, 64, 4096]),
+            json!({"cell": "secure", "preset": preset, "chunk": *r.pick(&[1u64, 8, 24, 100, 1024, 4096, 63, 64, 65]), "maxchunks": *r.pick(&[1u64, 4, 100]), "align": *r.pick(&[1u64, 8, 16, 32, 64, 4096]),
                    "lcache": *r.pick(&[0u64, 1, 2, 64]), "flags": r.below(4), "opts": if wide { r.below(1 << 19) } else { 0 }, "ops": ops})
         }
         6 => { // basic pool + pooled containers
@@ -1586,7 +1590,7 @@ fn gen_case(r: &mut Rng, which: u64, bins: &[u64]) -> Value {
             let cl = vec![1u64, 64, 1023, 1024, 1025, 2048, 2049, 4096, 8192, 16383, 16384, 16385, 65536, (2 << 20) - 1, 2 << 20];
             let n = r.range(3, 30);
             let mut ops = gen_ops_x(r, n, &cl, 1 << 20, false, false, &[1], xx(3, false, false));
-            for o in ops.iter_mut() { if o[0] == 0 { o[1] = if wide && r.chance(1, 12) { *r.pick(&[u64::MAX, u64::MAX - (2 << 20) + 2, 1 << 63, (1 << 47) + 1, 0]) }
+            for o in ops.iter_mut() { if o[0] == 0 { o[1] = if wide && r.chance(1, 12) { *r.pick(&[u64::MAX, u64::MAX - (2 << 20) + 2, 1 << 63, (1 << 47) + 1, 0, 1 << 32, (1 << 32) + 1]) }
                                                        else if r.chance(3, 4) { (*r.pick(&cl) as i64 + *r.pick(&[-1i64, 0, 0, 1])).max(1) as u64 } else { r.range(1, 40000) }; } }
             json!({"cell": "tiered", "preset": r.below(if wide { 4 } else { 3 }), "flags": r.below(16),
                    "mmapthr": if wide { *r.pick(&[0u64, 0, 1, 4096, 1025, 65536]) } else { 0 }, "hugethr": if wide { *r.pick(&[0u64, 0, 1 << 20, 4 << 20, 4096]) } else { 0 }, "ops": ops})
@@ -1667,7 +1671,7 @@ fn generate(cx: &mut Ctx, args: &Args) {
 
 fn child(args: &Args) {
     let mut cx = Ctx {
-        sum: Summary::new("C07", "histories of allocate(size[,align]) / free(k-th live block) / free(foreign pointer) / arena scope begin-end, 3..70 ops, per pool type and configuration (presets and small custom capacities so that exhaustion, recycling and arena turnover happen); sizes drawn around every size-class boundary (c-9..c+8), around the fast-bin threshold, around the capacity, and u32/usize extremes; every live block carries a position-dependent pattern checked after every operation; non-trivial = history with at least two allocations"),
+        sum: Summary::new("C07", "histories of allocate(size[,align]) / free(k-th live block) / free(foreign pointer) / arena scope begin-end, 3..70 ops, per pool type and configuration (presets and small custom capacities so that exhaustion, recycling and arena turnover happen); sizes drawn around every size-class boundary (c-9..c+8), around the fast-bin threshold, around the capacity, and u32/usize extremes; every live block carries a position-dependent pattern checked after every operation; a third of the histories also mix in the secondary entry points (bulk requests of 1..40 sizes, housekeeping such as clear / clear_caches / clear_cache / reset / validate / statistics and capacity accessors, RAII guard views, pool handles, typed and slice allocation, requests sized around the reported remaining capacity) and configuration fields no preset sets; 246 deterministic families (presets x internal thresholds: cache bounds 4 / 32 / 64 / 100 / 128, look-ahead 8 / 12, class-table ends, 1 KiB .. 2 MiB tier boundaries, arenas and pools driven to exhaustion, a 4 GiB region) written as (kind, n, size, seed); CacheAlignedVec over seven element types against a Vec shadow; non-trivial = history with at least two allocations"),
         shards: CoqShards::new(HEADER, 150),
         budget: if args.thorough { 9000 } else { 1500 },
         impl_bins: read_impl_bins(),
